@@ -176,7 +176,9 @@ class _STIXBase(collections.abc.Mapping):
                                 "_toplevel_properties", {},
                             ),
                         )
-                    else:
+                    elif "extensions" in self._properties:
+                        # (an unregistered extension can only be taken on
+                        # trust where the type has an "extensions" property)
                         has_unregistered_toplevel_extension = True
 
         if has_unregistered_toplevel_extension:
